@@ -47,6 +47,7 @@ type scen struct {
 	preHeld     []core.Listener
 	releases    []relSpec
 	outPart     map[string]*atomic.Int64
+	sharedCtx   context.Context
 	releasedPre atomic.Int64
 	// counters
 	maxOut int64
@@ -78,6 +79,7 @@ type scenOpts struct {
 	arrivals       []time.Duration
 	holds          []time.Duration
 	qTimeouts      []time.Duration
+	sharedCtxPct   int // % of the runs in which the callers without a cancellation of their own pass one shared, live context
 	bTimeouts      []time.Duration
 	deadlines      []time.Duration
 	cancelPct      int
@@ -179,7 +181,11 @@ func drawScen(r *Run, o scenOpts) *scen {
 			}
 		}
 	}
-	r.Mixf("%s %s clients=%d preheld=%d", r.P.ID, c, n, pre)
+	if o.sharedCtxPct > 0 && t.Chance(o.sharedCtxPct, "shared-context") {
+		sc.sharedCtx, _ = context.WithCancel(bg)
+		r.Probe("callers_share_one_context")
+	}
+	r.Mixf("%s %s clients=%d preheld=%d shared-ctx=%v", r.P.ID, c, n, pre, sc.sharedCtx != nil)
 	for i, cl := range sc.clients {
 		r.Mixf("  client%d arrive=%v hold=%v outcome=%s cancelAt=%v midop=%v preCancel=%v part=%q ctxDeadline=%v", i, cl.spec.arrive, cl.spec.hold, outcomeNames[cl.spec.outcome], cl.spec.cancelAt, cl.spec.cancelMidOp, cl.spec.preCancel, cl.spec.part, cl.spec.ctxDeadline)
 	}
@@ -230,6 +236,9 @@ func (sc *scen) start() {
 			}
 			tk.Sleep(cl.spec.arrive)
 			base := tk.Ctx
+			if sc.sharedCtx != nil && cl.spec.cancelAt < 0 && !cl.spec.preCancel {
+				base = sc.sharedCtx // one request context fanned out to several calls: same Done channel, never cancelled
+			}
 			if cl.spec.ctxDeadline > 0 {
 				// a context with its own deadline (expires like a cancellation at that virtual instant)
 				var dcancel context.CancelFunc
